@@ -77,7 +77,9 @@ func HarnessC19a() {
 			b[i] = verifNondetU8("byte")
 			verifAssume(b[i] < 10) // stated cut: single-byte varints, declared counts and lengths below 10
 		}
+		refDecodeAllowTrailing = true
 		_, _, _, ok := refDecode(b)
+		refDecodeAllowTrailing = false
 		if ok {
 			verifAssume(false) // decodable inputs are the business of the other cases
 		}
